@@ -107,6 +107,7 @@ class ScriptEnv:
 
     def reset(self, seed=None, options=None):
         self.resets += 1
+        self.reset_args = getattr(self, "reset_args", []) + [(seed, options)]
         self.agents = list(self.possible_agents)
         k = self.resets
         return ({a: obs_of(self.space, self.reset_label(k) + self.possible_agents.index(a)) for a in self.possible_agents},
@@ -161,7 +162,7 @@ class WorkerLoop(Case):
     functions = (_async_worker, process_transition, get_placeholder_value, write_to_shared_memory, create_shared_memory, Observations.__getitem__)
     stubs = ("pipe = scripted in-memory command list; sub-environment = scripted env with symbolic flags/rewards; shared memory = real ctypes arrays, no processes",)
     assumptions = ("at least one agent is present in the dicts a sub-environment returns",)
-    outside = ("real process scheduling, pickling, shared memory between processes, seeds",)
+    outside = ("real process scheduling, pickling, shared memory between processes, what a real environment does with its seed",)
 
     def __init__(self, kind, A, T, E=2, index=1, absent=False, continuous=False):
         self.kind, self.A, self.T, self.E, self.index, self.absent, self.continuous = kind, A, T, E, index, absent, continuous
@@ -190,11 +191,14 @@ class WorkerLoop(Case):
             acts = [[np.array([[0.5 * t + k, -1.0 * k]], dtype=np.float32) for k in range(self.A)] for t in range(self.T)]     # (1, 2) rows as sliced from a batch
         else:
             acts = [[t + 1 + k for k in range(self.A)] for t in range(self.T)]
-        pipe = ScriptPipe([("reset", {"seed": None, "options": None})] + [("step", a) for a in acts] + [("close", None)], snapshot)
+        seed0, opts0 = v.int("seed"), {"k": 1}
+        pipe = ScriptPipe([("reset", {"seed": seed0, "options": opts0})] + [("step", a) for a in acts] + [("close", None)], snapshot)
         errors = ListQueue()
         _async_worker(self.index, lambda: env, pipe, ScriptPipe([], snapshot), shm, errors, agents)
         res = [Ob("no-error-reported-by-the-worker", len(errors) == 0 and all(m[1] for m, _ in pipe.sent)),
-               Ob("one-reply-per-command", len(pipe.sent) == self.T + 2)]
+               Ob("one-reply-per-command", len(pipe.sent) == self.T + 2),
+               Ob("the-reset-command's-seed-and-options-reach-the-sub-environment", len(getattr(env, "reset_args", [])) >= 1 and env.reset_args[0][1] is opts0 and
+                  (env.reset_args[0][0] is seed0 or bool(eq(env.reset_args[0][0], seed0))), site="_async_worker/reset-arguments")]
         if len(errors) or len(pipe.sent) != self.T + 2:
             return res
         i = self.index
@@ -306,6 +310,64 @@ class ParentStep(Case):
         return res
 
 
+class ParentReset(Case):
+    """PettingZooVecEnv.reset -> reset_async -> reset_wait: sub-environment i is reset with its own seed (seed + i for an
+    integer seed, seed[i] for a list, None for None) and the caller's options; the batch returned is the one the workers wrote"""
+    functions = (AsyncPettingZooVecEnv.reset, AsyncPettingZooVecEnv.reset_async, AsyncPettingZooVecEnv.reset_wait)
+    stubs = ("parent pipes = in-memory pipes pre-loaded with each worker's reply; instance created without spawning processes", "isinstance(x, int) in agilerl.vector.pz_async_vec_env accepts integer proxies")
+    site = "AsyncPettingZooVecEnv.reset"
+
+    def __init__(self, A, E, seed_kind):
+        self.A, self.E, self.seed_kind = A, E, seed_kind
+        self.name = f"parent-reset-A{A}-E{E}-seed-{seed_kind}"
+        self.bounds = {"agents": A, "num_envs": E, "seed": {"int": "one symbolic integer (any value, 0 and negatives included)", "list": "one symbolic integer per sub-environment", "none": "None"}[seed_kind]}
+
+    def run(self, v):
+        from symx.shim import ShimInt
+        A, E = self.A, self.E
+        agents = [f"ag_{i}" for i in range(A)]
+        space = KINDS["vector"]()
+        obs_spaces = {a: space for a in agents}
+        shm = create_shared_memory(E, obs_spaces, mp)
+        for j in range(E):
+            write_to_shared_memory(j, {a: obs_of(space, 100 * j + 10 * k) for k, a in enumerate(agents)}, shm, obs_spaces)
+        pipes = [FakePipe(({a: {"env": j} for a in agents}, True)) for j in range(E)]
+        env = object.__new__(AsyncPettingZooVecEnv)
+        env.num_envs, env.agents, env.possible_agents, env.num_agents = E, list(agents), list(agents), A
+        env.parent_pipes, env.processes, env.error_queue = pipes, [], ListQueue()
+        env.observations = Observations(shm, obs_spaces, E)
+        env.copy, env.closed, env._state = True, False, AsyncState.DEFAULT
+        opts = {"difficulty": 3}
+        if self.seed_kind == "int":
+            seed = v.int("seed")
+            want = [seed + j for j in range(E)]
+        elif self.seed_kind == "list":
+            seed = [v.int(f"seed{j}") for j in range(E)]
+            want = list(seed)
+        else:
+            seed, want = None, [None] * E
+        patches = [(av, "int", ShimInt)] if v.mode != "real" else []
+        with patched(*patches):
+            obs, info = env.reset(seed=seed, options=opts)
+        res = []
+        for j in range(E):
+            sent = pipes[j].sent
+            ok = len(sent) == 1 and sent[0][0] == "reset" and isinstance(sent[0][1], dict) and set(sent[0][1]) == {"seed", "options"}
+            res.append(Ob(f"env{j}/receives-one-reset-command", ok))
+            if not ok:
+                continue
+            got = sent[0][1]["seed"]
+            if want[j] is None:
+                res.append(Ob(f"env{j}/is-reset-without-a-seed", got is None, site=self.site + "/seeds"))
+            else:
+                res.append(Ob(f"env{j}/is-reset-with-its-own-seed", (got is not None) and eq(got, want[j]), site=self.site + "/seeds"))
+            res.append(Ob(f"env{j}/gets-the-caller's-options", sent[0][1]["options"] is opts, site=self.site + "/options"))
+            for k, a in enumerate(agents):
+                res.append(Ob(f"env{j}/{a}/observation-at-position-{j}-is-env-{j}'s", same_obs(space, obs[a][j], obs_of(space, 100 * j + 10 * k)), site=self.site + "/assembly"))
+        res.append(Ob("state-returns-to-default", env._state == AsyncState.DEFAULT))
+        return res
+
+
 class AutoResetWrapper(Case):
     functions = (PettingZooAutoResetParallelWrapper.step,)
     site = "PettingZooAutoResetParallelWrapper.step"
@@ -336,6 +398,7 @@ def cases(tier):
     cs = [WorkerLoop("vector", 2, 2), WorkerLoop("image", 2, 1, E=3, index=2), WorkerLoop("dict", 2, 1), WorkerLoop("tuple", 1, 2, index=0),
           WorkerLoop("vector", 2, 1, absent=True), WorkerLoop("vector", 2, 1, continuous=True), WorkerLoop("vector", 2, 2, absent=True),
           ParentStep(2, 2), ParentStep(3, 2, copy=False), ParentStep(1, 3),
+          ParentReset(2, 2, "int"), ParentReset(1, 3, "list"), ParentReset(2, 2, "none"),
           AutoResetWrapper(1), AutoResetWrapper(2)]
     if tier == "thorough":
         cs += [WorkerLoop("vector", 3, 2), WorkerLoop("dict", 2, 2, absent=True), WorkerLoop("tuple", 2, 2, E=3, index=1), AutoResetWrapper(3), ParentStep(3, 3)]
